@@ -42,6 +42,7 @@ def ensure_coroutine(coro_or_fn):
     (plumpy.utils.ensure_coroutine.<wrap>)."""
     modifies()
     ensures(wraps(result, coro_or_fn))
+    ensures(result is coro_or_fn or is_function(result))      # the wrapper is a plain function object (functools.wraps closure)
     ensures(result is not None)
     raises(TypeError, not callable_(coro_or_fn))
 
